@@ -71,7 +71,8 @@ var verifC10Global = []verifC10Tweak{
 	{"webrtc", l(true, false)}, {"webrtcDisable", l(true, false)}, {"webrtcAddress", l("", ":8889")},
 	{"webrtcICEServers2", l([]any{}, []any{map[string]any{"url": "stun:x:3478"}}, []any{map[string]any{"url": "http:x"}},
 		[]any{map[string]any{"url": "turns:y", "username": "u", "password": "p"}}, []any{map[string]any{"url": ""}})},
-	{"webrtcICEServers", l([]any{"stun:a:3478"}, []any{"turn:u:p:host:3478"}, []any{"x"}, []any{}, []any{"a:b:c:d:e", "stun:z"})},
+	{"webrtcICEServers", l([]any{"stun:a:3478"}, []any{"turn:u:p:host:3478"}, []any{"x"}, []any{}, []any{"a:b:c:d:e", "stun:z"},
+		[]any{"turn::pass:host:3478"}, []any{"turn:::host:3478"}, []any{"stun:::1"}, []any{"turn:u:p:[::1]:3478"}, []any{":"}, []any{"::::"}, []any{""})},
 	{"webrtcICEUDPMuxAddress", l("", ":8189")}, {"webrtcICETCPMuxAddress", l("", ":8189")},
 	{"webrtcLocalUDPAddress", l("", ":8189")}, {"webrtcLocalTCPAddress", l("", ":8189")},
 	{"webrtcIPsFromInterfaces", l(true, false)},
@@ -655,6 +656,43 @@ var verifC10Regress = []struct {
 
 func verifC10Str(s string) *string { return &s }
 
+// the packed item syntax of the deprecated webrtcICEServers parameter ("scheme:user:pass:host:port"), which Validate
+// converts into webrtcICEServers2: every empty / non-empty pattern of 1..5 colon-separated segments
+func verifC10ICEPattern(k int) string {
+	vals := []string{"turn", "user", "pass", "host", "3478", "x"}
+	n := 1
+	for k >= 1<<uint(n) {
+		k -= 1 << uint(n)
+		n++
+	}
+	segs := make([]string, n)
+	for j := 0; j < n; j++ {
+		if k&(1<<uint(j)) != 0 {
+			segs[j] = vals[j]
+		}
+	}
+	return strings.Join(segs, ":")
+}
+
+const verifC10ICECount = 2 + 4 + 8 + 16 + 32 // patterns with 1..5 segments
+
+func verifC10ICERandom(r *verifutil.Rand) string {
+	n := r.Intn(7)
+	segs := make([]string, n)
+	for j := range segs {
+		segs[j] = r.Pick("", "", "turn", "stun", "turns", "user", "pass", "host", "3478", "[::1]", "[fe80::1]", "[", "]", "::1", "1.2.3.4", " ", "x")
+	}
+	return strings.Join(segs, ":")
+}
+
+func verifC10ICEOp(items []string, viaEnv bool) string {
+	if viaEnv {
+		return verifC10LoadOp(nil, nil, nil, []verifC10KV{{"MTX_WEBRTCICESERVERS", strings.Join(items, ",")}})
+	}
+	b, _ := json.Marshal(map[string]any{"webrtcICEServers": items})
+	return verifC10LoadOp(b, nil, nil, nil)
+}
+
 func verifC10Gen(r *verifutil.Rand, i int, thorough bool) []string {
 	if i < len(verifC10Regress) {
 		g := verifC10Regress[i]
@@ -665,11 +703,22 @@ func verifC10Gen(r *verifutil.Rand, i int, thorough bool) []string {
 		return []string{verifC10LoadOp([]byte(verifC10Hostile[i]), nil, nil, nil)}
 	}
 	i -= len(verifC10Hostile)
+	if i < 2*verifC10ICECount {
+		return []string{verifC10ICEOp([]string{verifC10ICEPattern(i / 2)}, i%2 == 1)}
+	}
+	i -= 2 * verifC10ICECount
 	if i < verifC10HCount() {
 		return []string{verifC10HCase(i)}
 	}
 	if r.Chance(1, 12) {
 		return []string{verifC10HRandom(r)}
+	}
+	if r.Chance(1, 25) {
+		items := []string{verifC10ICERandom(r)}
+		for r.Chance(1, 3) {
+			items = append(items, verifC10ICERandom(r))
+		}
+		return []string{verifC10ICEOp(items, r.Bool())}
 	}
 	switch c := r.Intn(100); {
 	case c < 30:
